@@ -68,13 +68,16 @@ def runRsp (an : List Nat) (plen : Option Nat) (impl : String) : Ans :=
   { model := model, verdict := if impl == want then "ok" else "FAIL:response-ttl"
     tags := ["rsp"] ++ (if an.length ≥ 2 then ["nt"] else []) }
 
-def run (op impl : String) : Ans :=
-  match op.splitOn " " with
-  | ["rsp", an, _ns, _ex, pl] =>
-    match natList an with
-    | some a => runRsp a (if pl == "E" then none else pl.toNat?) impl
-    | none => { model := "bad-op", verdict := "skip" }
-  | ["doh", method0, dv, bh, ras, cas, wh, u] =>
+/-- the pieces a scripted body reader returns: sizes `n.n.n` (0 = empty read), then the rest; `-` = all at once -/
+def splitBody (body : Bytes) (script : String) : List Bytes :=
+  if script == "-" then [body]
+  else
+    let sc := if script.endsWith "e" then (script.dropEnd 1).toString else script
+    let sizes := (sc.splitOn ".").filterMap (·.toNat?)
+    let (chunks, rest) := sizes.foldl (fun (st : List Bytes × Bytes) n => (st.1 ++ [st.2.take n], st.2.drop n)) ([], body)
+    chunks ++ [rest]
+
+def runDoh (method0 dv bh ras cas wh u rs impl : String) : Ans :=
     let method := if method0 == "-" then "" else method0
     match parseVals dv, bytesOfHex bh, parseIp ras, parseIp cas with
     | some dnsVals, some body, some ra, some ca =>
@@ -90,7 +93,7 @@ def run (op impl : String) : Ans :=
           | none => false
         if miss || (u != "E" && orc.isNone) then { model := "oracle-miss", verdict := "skip", tags := ["oracle-miss"] }
         else
-          let res := requestToDnsMsg (fun _ => orc) method dnsVals body ra ca
+          let res := requestToDnsMsgC (fun _ => orc) method dnsVals (splitBody body rs) ra ca
           let model := (match res with | some m => renderMsg m | none => "err") ++ sfx
           -- SPEC oracle on the implementation's result
           let implMain := if sfx != "" && impl.endsWith sfx then (impl.dropEnd sfx.length).toString else impl
@@ -107,7 +110,7 @@ def run (op impl : String) : Ans :=
           let tags0 := [method0] ++ (match ra with
             | none => ["no-remote"]
             | some rip => [ipTag (ca.getD rip)]) ++ (if clientOpt then ["client-opt"] else []) ++
-            (if body.length > 8192 then ["oversize"] else [])
+            (if body.length > 8192 then ["oversize"] else []) ++ (if rs != "-" then ["chunked"] else [])
           let (verdict, tags) : String × List String :=
             match reject with
             | some cls => (if implMain == "err" then "ok" else "FAIL:" ++ cls, tags0 ++ ["reject"])
@@ -134,6 +137,15 @@ def run (op impl : String) : Ans :=
               | _, _ => ("FAIL:valid-rejected", tags0)
           { model := model, verdict := verdict, tags := tags }
     | _, _, _, _ => { model := "bad-op", verdict := "skip" }
+
+def run (op impl : String) : Ans :=
+  match op.splitOn " " with
+  | ["rsp", an, _ns, _ex, pl] =>
+    match natList an with
+    | some a => runRsp a (if pl == "E" then none else pl.toNat?) impl
+    | none => { model := "bad-op", verdict := "skip" }
+  | ["doh", method0, dv, bh, ras, cas, wh, u] => runDoh method0 dv bh ras cas wh u "-" impl
+  | ["doh", method0, dv, bh, ras, cas, wh, u, rs] => runDoh method0 dv bh ras cas wh u rs impl
   | _ => { model := "bad-op", verdict := "skip" }
 
 end BfeVerif.C56
